@@ -44,6 +44,7 @@ Exists(o) == o[1] \in final /\ Stored(o)
 (* VersionedTransaction.Validate + type rules, on the current state           *)
 TxValid(t, fork) ==
     LET d == TxDef[t] IN
+    /\ ~d.bad
     /\ \A r \in d.refs : r \in final
     /\ \A o \in InsOf(t) :
          /\ Exists(o)
@@ -70,6 +71,7 @@ VLoop(seq, i, st, fork) ==
               VLoop(seq, i + 1, [st EXCEPT !.ok = fork \/ t \notin final], fork)
          ELSE LET d == TxDef[t]
                   valid ==
+                    /\ ~d.bad          \* outputs do not add up to the inputs: refused by Validate
                     /\ \A r \in d.refs : r \in final
                     /\ \A o \in InsOf(t) :
                          /\ Exists(o) /\ TxDef[o[1]].asset = d.asset
@@ -153,7 +155,29 @@ Apply(B) ==
                   /\ topo' = Append(topo, B)
                   /\ validated' = validated \ {B}
 
-Next == \E B \in Batches : Validate(B) \/ Apply(B)
+\* A batch certified by the other nodes arrives although this node never validated it (it was not asked,
+\* or it refused): the finalization path validates with fork = TRUE, so pending transactions of this node
+\* that hold the same inputs are displaced and deleted. Honest signers only certify what is applicable, so
+\* the step is enabled only where the batch can be applied; batches of this node that lost a transaction
+\* can never be certified any more and leave `validated`.
+ApplyF(B) ==
+    /\ B \notin validated
+    /\ \A i \in 1..Len(topo) : topo[i] # B
+    /\ B \cap final = {}
+    /\ \A t, u \in B : t # u => InsOf(t) \cap InsOf(u) = {}     \* honest signers refuse a batch that conflicts with itself
+    /\ LET r == RunValidation(B, TRUE)
+           ta == TotalsAfter(SortedSeq(B), 1, total, final, ainfo)
+           gone == body \ r.body
+       IN /\ r.ok /\ ta.ok /\ B \subseteq r.body
+          /\ last' = [op |-> "ApplyF", b |-> SortedSeq(B), res |-> "applied"]
+          /\ body' = r.body /\ lock' = r.lock /\ dlock' = r.dlock
+          /\ final' = final \cup B
+          /\ total' = ta.total
+          /\ ainfo' = ta.info
+          /\ topo' = Append(topo, B)
+          /\ validated' = { V \in validated : V \cap gone = {} /\ V \cap B = {} }
+
+Next == \E B \in Batches : Validate(B) \/ Apply(B) \/ ApplyF(B)
 Spec == Init /\ [][Next]_vars
 
 (* ---------------------------------------------------------------------- *)
